@@ -1,3 +1,5 @@
+import Props.GenJoinTail
 import Props.GenTraverse
 open Model.SlicesGen
 #print axioms traverse_eq
+#print axioms joinTail_eq
